@@ -15,8 +15,10 @@ theorem escCellB_sound : ∀ s, escCellB s = true → EscCell s := by
   | case1 => intro _; exact .nil
   | case2 d r ih =>
     intro h
-    simp only [Bool.and_eq_true, decide_eq_true_eq] at h
-    rw [h.1]; exact .esc _ (ih h.2)
+    simp only [Bool.and_eq_true, Bool.or_eq_true, decide_eq_true_eq] at h
+    rcases h.1 with h1 | h1
+    · rw [h1]; exact .esc _ (ih h.2)
+    · rw [h1]; exact .bs _ (ih h.2)
   | case3 => intro h; cases h
   | case4 c s hc ih =>
     intro h
@@ -54,7 +56,11 @@ theorem tokAux_escPipe (s : Str) (pos : Nat) :
     tokAux 0 pos ('\\' :: '|' :: s) = tokAux 0 (pos + 2) s := by
   simp [tokAux]
 
-/-- a cell of plain characters and escaped pipes yields no token -/
+theorem tokAux_escBs (s : Str) (pos : Nat) :
+    tokAux 0 pos ('\\' :: '\\' :: s) = tokAux 0 (pos + 2) s := by
+  simp [tokAux]
+
+/-- a cell of plain characters, escaped pipes and escaped backslashes yields no token -/
 theorem tokAux_escCell {c : Str} (h : EscCell c) : ∀ (pos : Nat) (rest : Str),
     tokAux 0 pos (c ++ rest) = tokAux 0 (pos + c.length) rest := by
   induction h with
@@ -65,6 +71,9 @@ theorem tokAux_escCell {c : Str} (h : EscCell c) : ∀ (pos : Nat) (rest : Str),
   | esc s _ ih =>
     intro pos rest
     rw [List.cons_append, List.cons_append, tokAux_escPipe, ih]; congr 1; simp; omega
+  | bs s _ ih =>
+    intro pos rest
+    rw [List.cons_append, List.cons_append, tokAux_escBs, ih]; congr 1; simp; omega
 
 theorem tokAux_pipe (s : Str) (pos : Nat) :
     tokAux 0 pos ('|' :: s) = .pipe pos :: tokAux 0 (pos + 1) s := by
@@ -197,6 +206,7 @@ theorem EscCell.head_ne_tick {c : Str} (h : EscCell c) (rest : Str) (hr : rest.h
     have := ((plainChar_iff c).1 hc).2.1
     simpa using this
   | esc s _ => simp
+  | bs s _ => simp
 
 theorem CodeBody.head_ne_tick {c : Str} (h : CodeBody c) (hne : c ≠ []) (rest : Str) :
     (c ++ rest).head? ≠ some '`' := by
@@ -450,61 +460,102 @@ theorem tableRun_widths (b : Nat) (sep : List Str) (block : Str) :
 
 /-! ### border pipes -/
 
-/-- the text does not end with a backslash -/
-def NoTrailingBackslash (s : Str) : Prop := s.reverse.head? ≠ some '\\'
+def isBs (c : Char) : Bool := c = '\\'
 
-theorem endBorderSub_append_pipe (x : Str) (h : NoTrailingBackslash x) :
+/-- length of the run of backslashes that ends the text -/
+def trailingBs (s : Str) : Nat := spanLen isBs s.reverse
+
+theorem spanLen_all (p : Char → Bool) : ∀ (a : Str), a.all p = true → spanLen p a = a.length
+  | [], _ => rfl
+  | c :: a, h => by
+    simp only [List.all_cons, Bool.and_eq_true] at h
+    simp [spanLen, h.1, spanLen_all p a h.2]
+
+theorem spanLen_append (p : Char → Bool) : ∀ (a b : Str),
+    spanLen p (a ++ b) = if a.all p then a.length + spanLen p b else spanLen p a
+  | [], b => by simp
+  | c :: a, b => by
+    have ih := spanLen_append p a b
+    by_cases hc : p c = true
+    · simp only [List.cons_append, spanLen, hc, if_true, List.all_cons, Bool.true_and, List.length_cons, ih]
+      split <;> omega
+    · simp [spanLen, hc]
+
+/-- `RE_END_BORDER` matches the closing pipe after an even run of backslashes, and the (repaired) substitution
+    removes the pipe only -/
+theorem endBorderSub_append_pipe (x : Str) (h : trailingBs x % 2 = 0) :
     endBorderSub (x ++ ['|']) = some x := by
-  have hk : spanLen (fun c => decide (c = '\\')) x.reverse = 0 := by
-    unfold NoTrailingBackslash at h
-    cases hx : x.reverse with
-    | nil => rfl
-    | cons c r =>
-      have : c ≠ '\\' := by simpa [hx] using h
-      simp [spanLen, this]
-  simp [endBorderSub, hk]
+  have h' : spanLen (fun c => decide (c = '\\')) x.reverse % 2 = 0 := h
+  simp [endBorderSub, h']
 
-theorem EscCell.noTrailingBackslash {c : Str} (h : EscCell c) : NoTrailingBackslash c := by
-  unfold NoTrailingBackslash
+/-- in a cell of plain characters, escaped pipes and escaped backslashes the final run of backslashes is even -/
+theorem EscCell.trailingBs_even {c : Str} (h : EscCell c) : trailingBs c % 2 = 0 := by
   induction h with
-  | nil => simp
+  | nil => rfl
   | plain c s hc _ ih =>
-    have hc' := ((plainChar_iff c).1 hc).2.2
-    cases s with
-    | nil => simpa using hc'
-    | cons d r =>
-      rw [List.reverse_cons, List.head?_append]
-      cases hh : (d :: r).reverse.head? with
-      | none => simp at hh
-      | some e => rw [hh] at ih; simpa using ih
+    have hc' : isBs c = false := by
+      have := ((plainChar_iff c).1 hc).2.2
+      simp [isBs, this]
+    unfold trailingBs at ih ⊢
+    rw [List.reverse_cons, spanLen_append]
+    split
+    · rename_i hall
+      rw [spanLen_all _ _ hall] at ih
+      simpa [spanLen, hc'] using ih
+    · exact ih
   | esc s _ ih =>
-    cases s with
-    | nil => simp
-    | cons d r =>
-      rw [List.reverse_cons, List.reverse_cons, List.append_assoc, List.head?_append]
-      cases hh : (d :: r).reverse.head? with
-      | none => simp at hh
-      | some e => rw [hh] at ih; simpa using ih
+    unfold trailingBs at ih ⊢
+    rw [List.reverse_cons, List.reverse_cons, List.append_assoc, spanLen_append]
+    split
+    · rename_i hall
+      rw [spanLen_all _ _ hall] at ih
+      simpa [spanLen, isBs] using ih
+    · exact ih
+  | bs s _ ih =>
+    unfold trailingBs at ih ⊢
+    rw [List.reverse_cons, List.reverse_cons, List.append_assoc, spanLen_append]
+    split
+    · rename_i hall
+      rw [spanLen_all _ _ hall] at ih
+      simp only [List.cons_append, List.nil_append, spanLen, isBs, decide_true, if_true]
+      omega
+    · exact ih
 
-theorem joinPipe_noTrailingBackslash : ∀ (cs : List Str), (∀ c ∈ cs, EscCell c) →
-    NoTrailingBackslash (joinPipe cs)
-  | [], _ => by simp [NoTrailingBackslash, joinPipe, join]
-  | [a], h => by simpa [joinPipe, join] using (h a (by simp)).noTrailingBackslash
+theorem joinPipe_trailingBs_even : ∀ (cs : List Str), (∀ c ∈ cs, EscCell c) → trailingBs (joinPipe cs) % 2 = 0
+  | [], _ => rfl
+  | [a], h => by simpa [joinPipe, join] using (h a (by simp)).trailingBs_even
   | a :: b :: r, h => by
-    have ih := joinPipe_noTrailingBackslash (b :: r) (fun c hc => h c (by simp [hc]))
-    unfold NoTrailingBackslash at ih ⊢
+    have ih := joinPipe_trailingBs_even (b :: r) (fun c hc => h c (by simp [hc]))
+    unfold trailingBs at ih ⊢
     simp only [joinPipe] at ih
     simp only [joinPipe, join, List.append_assoc, List.singleton_append, List.reverse_append,
       List.reverse_cons]
-    cases hh : (join ['|'] (b :: r)).reverse with
-    | nil => simp
-    | cons e t => rw [hh] at ih; simpa using ih
+    rw [spanLen_append]
+    split
+    · rename_i hall
+      rw [spanLen_all _ _ hall] at ih
+      simpa [spanLen, isBs] using ih
+    · exact ih
 
 /-- `_split_row` of `|c1|…|cn|` when a border was seen on the header -/
 theorem splitRow_bordered (cs : List Str) (hne : cs ≠ []) (h : ∀ c ∈ cs, EscCell c) (b : Nat) (hb : b ≠ 0) :
     splitRow b ('|' :: (joinPipe cs ++ ['|'])) = cs := by
   simp only [splitRow, if_neg hb, startsWith, decide_true, Bool.and_self, if_true, List.tail_cons]
-  rw [endBorderSub_append_pipe _ (joinPipe_noTrailingBackslash cs h)]
+  rw [endBorderSub_append_pipe _ (joinPipe_trailingBs_even cs h)]
   exact split_join cs hne h
+
+theorem EscCell.append {a b : Str} (ha : EscCell a) (hb : EscCell b) : EscCell (a ++ b) := by
+  induction ha with
+  | nil => exact hb
+  | plain c s hc _ ih => exact .plain c _ hc ih
+  | esc s _ ih => exact .esc _ ih
+  | bs s _ ih => exact .bs _ ih
+
+theorem EscCell.escBackslashes : ∀ k, EscCell (escBackslashes k)
+  | 0 => .nil
+  | k + 1 => by
+    have : Tables.escBackslashes (k + 1) = '\\' :: '\\' :: Tables.escBackslashes k := by
+      simp [Tables.escBackslashes, Nat.mul_add, List.replicate_succ]
+    rw [this]; exact .bs _ (EscCell.escBackslashes k)
 
 end MdVerif.Tables
